@@ -272,6 +272,26 @@ def unpack(ctx, prog, rule):
     need = {"xml": 1, "blob": 4, "pointcloud_raw": 1, "pointclouds": 1, "images": 1}
     ok = all(used.get(k, 0) >= v for k, v in need.items())
     ctx.ob(rule, "sources/unpack", ok, "unpack takes its output from E57Reader::%s (needs xml, pointclouds, pointcloud_raw, images and blob for preview/mask/projection/mask)" % dict(used))
+    # every exported blob goes to a file of its own: the file name expressions of the blob() calls are pairwise different
+    import xmlgen
+    names = []
+    for p, f in prog.fns.items():
+        Rf = Resolver(f, max_depth=40)
+        for bi, t in f.calls(lambda c, t: c.startswith("e57::E57Reader") and c.endswith("::blob")):
+            w = Rf.operand(t["args"][2])
+            sig = None
+            for x in leaves(w):
+                if x[0] == "call" and x[1].endswith("File::create") and x[2]:
+                    for y in leaves(x[2][0]):
+                        toks = xmlgen._format_tokens(f.path, y) if y[0] == "call" else None
+                        if toks:
+                            sig = "".join(tk[1] if tk[0] == "lit" else "{%s}" % tree_str(strip_deep(tk[1]))[:80] for tk in toks)
+                            break
+                    break
+            names.append((short(p), f.file_line(bi), sig))
+    sigs = [n[2] for n in names]
+    okn = len(names) >= 4 and all(s_ is not None for s_ in sigs) and len(set(sigs)) == len(sigs)
+    ctx.ob(rule, "blob-files-distinct/unpack", okn, "each E57Reader::blob() call writes to its own file name: %s" % sigs)
     # xml written unmodified
     okx = False
     for p, f in prog.fns.items():
